@@ -684,8 +684,14 @@ class WaveShareNmea2000Gateway(AsyncIOClient):
         checksum = calculate_canbus_checksum(config_packet)
         config_packet.append(checksum)
         config_packet_bytes = bytes(config_packet)
-        self.writer.write(config_packet_bytes)
-        await self.writer.drain()
+        try:
+            self.writer.write(config_packet_bytes)
+            await self.writer.drain()
+        except BaseException:
+            # The port is open but unusable: do not leave it open while connect() backs off and retries
+            # (or gives up because close() was called meanwhile).
+            self.writer.close()
+            raise
         self.logger.info(f"Sent config packet: {config_packet_bytes.hex()}")
 
     async def _receive_impl(self):
